@@ -2506,7 +2506,11 @@ impl<'de, 'e> de::Deserializer<'de> for YamlDeserializer<'de, 'e> {
                                     key_seed,
                                     events,
                                     kemn_direct,
-                                    Some(key_reference_location),
+                                    // Only a key that arrived through an alias has a use-site
+                                    // of its own; for a key written in place every node inside
+                                    // it keeps its own position.
+                                    (key_reference_location != location)
+                                        .then_some(key_reference_location),
                                 )?;
                                 self.have_key = true;
                                 self.pending_value = None; // value will be read live
